@@ -2,7 +2,7 @@
 import ast
 import re
 
-from ..core import AnalysisError, norm, short, walk_local
+from ..core import AnalysisError, norm, short, walk_local, stale_loop_uses
 from ..cfg import cfg_of, forward
 from . import register
 
@@ -306,3 +306,70 @@ def check_c17(ctx, R):
             R.bad("I3", "%s|early-true" % cg.key, cg.loc(rets[0]), "_conflicts_good returns `%s` from inside the sibling scan" % norm(rets[0].value))
         else:
             R.ok("I3", "the scan visits every sibling", cg.loc(lp))
+
+
+def _i4(ctx, R):
+    """every element is made unique against ITS OWN siblings; no sibling is exempted from the conflict test"""
+    P = ctx.P
+    R.rule("I4", "each element's identifier is checked against the container it is listed in; every sibling takes part in the conflict test")
+    comp = P.cls("spydrnet/composers/edif/composer.py", "ComposeEdif")
+    en = P.cls(EN, "EdififyNames")
+    ed = comp.methods.get("_edifify_netlist")
+    if ed is None:
+        raise AnalysisError("anchor vanished: ComposeEdif._edifify_netlist")
+    n = 0
+    for x, lp in stale_loop_uses(ed.node):
+        R.bad("I4", "%s|stale %s" % (ed.key, x.id), ed.loc(x),
+              "_edifify_netlist uses `%s` after the loop over `%s` has ended: elements are made unique against the siblings of the LAST container only, so identifiers collide elsewhere" % (x.id, short(lp.iter, 40)))
+    for c in walk_local(ed.node):
+        if isinstance(c, ast.Call) and norm(c.func) == "self._add_rename_property" and len(c.args) >= 2:
+            n += 1
+            obj, ns = c.args[0], c.args[1]
+            loops = []
+            p_ = getattr(c, "_parent", None)
+            while p_ is not None and p_ is not ed.node:
+                if isinstance(p_, ast.For):
+                    loops.append(p_)
+                p_ = getattr(p_, "_parent", None)
+            binder = next((lp for lp in loops if norm(lp.target) == norm(obj)), None)
+            if binder is None:
+                if isinstance(ns, ast.List) and not ns.elts:
+                    R.ok("I4", "%s: stand-alone element, no siblings" % short(c, 50), ed.loc(c))
+                else:
+                    R.bad("I4", "%s|siblings of %s" % (ed.key, norm(obj)), ed.loc(c), "`%s`: %s is not enumerated by a loop, yet is checked against %s" % (short(c, 60), norm(obj), norm(ns)))
+            elif norm(binder.iter) == norm(ns):
+                R.ok("I4", "%s checked against %s" % (norm(obj), norm(ns)), ed.loc(c))
+            else:
+                R.bad("I4", "%s|siblings of %s" % (ed.key, norm(obj)), ed.loc(c),
+                      "`%s`: %s comes from `%s` but is made unique against `%s` — a different container, so it can collide with its real siblings" % (short(c, 60), norm(obj), norm(binder.iter), norm(ns)))
+    R.count("identifier assignments (I4)", n)
+    R.floor("identifier assignments (I4)", 6)
+    cg = en.methods.get("_conflicts_good")
+    # the identifier comparison may only be guarded by the presence test of that key
+    for b in walk_local(cg.node):
+        if isinstance(b, ast.BoolOp) and isinstance(b.op, ast.And) and any("'EDIF.identifier']" in norm(v) and isinstance(v, ast.Compare) and isinstance(v.ops[0], ast.Eq) for v in b.values):
+            extra = [v for v in b.values if not ("'EDIF.identifier']" in norm(v) and isinstance(v, ast.Compare) and isinstance(v.ops[0], ast.Eq))
+                     and not (isinstance(v, ast.Compare) and isinstance(v.ops[0], ast.In) and isinstance(v.left, ast.Constant) and v.left.value == "EDIF.identifier")]
+            if extra:
+                R.bad("I4", "%s|identifier-guard" % cg.key, cg.loc(b),
+                      "_conflicts_good only looks at a sibling's EDIF.identifier when `%s` also holds: siblings outside that condition can be given the same identifier" % short(extra[0], 50))
+            else:
+                R.ok("I4", "sibling identifiers are compared whenever present", cg.loc(b))
+
+
+_check_c17_base = check_c17
+
+
+@register("C17",
+          "Static analysis of EdififyNames against the reader's identifier rule: I1 the writer's validity predicate and its repair are "
+          "evaluated abstractly over the printable-ASCII domain (isalnum/isalpha/comparisons/boolean structure) and the reader's character "
+          "class is read from its regular expressions — accept(writer) must be included in accept(reader) for the first and the body "
+          "characters, and the repair's replacement character must be accepted; I2 the writer's length bound is within the reader's, and "
+          "every path of the conflict repair that lengthens the identifier re-applies the length repair before recursing or returning; "
+          "I3 the conflict test compares case-folded values on both sides and scans every sibling (no break / early exit); I4 every element "
+          "is made unique against the container it is listed in (no stale loop variable, sibling list = iterated container) and no sibling "
+          "identifier is exempted from the test. Decides legality of the character set, the bound, the folding and the scope of the "
+          "uniqueness test; termination/uniqueness of the _sdn_N_ search is not decided.")
+def check_c17_all(ctx, R):
+    _check_c17_base(ctx, R)
+    _i4(ctx, R)
